@@ -287,5 +287,16 @@ func (ms msgServer) UpdateStakingParams(ctx context.Context, msg *poa.MsgUpdateS
 		return nil, err
 	}
 
+	// The pools hold the validators' tokens in the bond denom: under another denom they are empty, pool accounting is
+	// lost and the next slash fails the block.
+	bondDenom, err := ms.k.stakingKeeper.BondDenom(ctx)
+	if err != nil {
+		return nil, err
+	}
+
+	if stakingParams.BondDenom != bondDenom {
+		return nil, errorsmod.Wrapf(sdkerrors.ErrInvalidRequest, "bond denom cannot be changed from %s to %s", bondDenom, stakingParams.BondDenom)
+	}
+
 	return &poa.MsgUpdateStakingParamsResponse{}, ms.k.stakingKeeper.SetParams(ctx, stakingParams)
 }
